@@ -185,6 +185,55 @@ def suite_try_reuse(ctx, res, n):
                         {"call": "GlyphReuseCache.try_reuse", "tolerance": tol, "oracle_affine": list(aff)}, {"site": "c19-try-reuse", "affine": list(aff)})
 
 
+def big_and_tiny_case(rng, fmt):
+    """a big gradient-filled shape, then 2..4 copies of it at 1/50 size, far from the origin, translated from one another: the first tiny copy
+    cannot use the big outline (undoing the reuse transform on its gradient overflows 16.16) and is drawn afresh; every further tiny copy is
+    congruent to THAT one and must share its outline — in the same glyph or in later glyphs"""
+    base = [(0, 0), (60, 0), (60, 30), (20, 50)] if rng.random() < 0.5 else [(0, 0), (50, 10), (40, 45), (5, 30), (-5, 12)]
+    tiny = rng.choice([0.02, 0.015, 0.025])
+    n = rng.randint(2, 4)
+
+    def placed(scale, tx, ty):
+        return [(round(x * scale + tx, 4), round(y * scale + ty, 4)) for x, y in base]
+
+    shapes = [placed(1, 10, 10)] + [placed(tiny, 84 + 9 * i + rng.choice([0, 1.5]), 80 + 7 * ((i * 3) % 5)) for i in range(n)]
+
+    def doc(group, first):
+        defs = "".join(f'<linearGradient id="g{first + i}" x1="0" y1="0" x2="1" y2="1"><stop offset="0" stop-color="#f00"/><stop offset="1" stop-color="#00f"/></linearGradient>'
+                       for i in range(len(group)))
+        body = "".join(f'<polygon fill="url(#g{first + i})" points="{" ".join(f"{x},{y}" for x, y in pts)}"/>' for i, pts in enumerate(group))
+        return f'<svg xmlns="http://www.w3.org/2000/svg" viewBox="0 0 128 128"><defs>{defs}</defs>{body}</svg>'
+
+    if rng.random() < 0.5:
+        groups = [shapes]
+    else:
+        groups = [shapes[:2]] + [[s_] for s_ in shapes[2:]]
+    svgs, k = [], 0
+    for g in groups:
+        svgs.append(doc(g, k))
+        k += len(g)
+    cfg = {"color_format": fmt, "upem": 1024, "ascender": 950, "descender": -250, "width": 1275, "reuse_tolerance": 0.1, "keep_glyph_names": True}
+    return {"id": f"c19-bigtiny:{fmt}:{rng.getrandbits(40)}", "seed": 0, "fmt": fmt, "svgs": svgs, "config": cfg,
+            "codepoints": [[0xE000 + i] for i in range(len(svgs))], "kinds": ["quad"] + ["translate"] * n, "n_copies": n + 1, "family": "big-tiny"}
+
+
+def suite_big_tiny(ctx, res, n):
+    for i in range(n):
+        fmt = ["glyf_colr_1", "glyf_colr_0"][i % 2]
+        case = big_and_tiny_case(ctx.rng, fmt)
+        out = fontgen.build(case)
+        res.count(key=("c19", case["id"]), nontrivial=True)
+        if "err" in out:
+            res.stat("build:" + out["err"])
+            res.add_cex("valid sources failed to build: " + out["err"], {"case": case, "trace": out.get("trace")}, {"site": "c19-build", "case": case["id"]})
+            continue
+        paths, _ = count_outlines(case, out)
+        res.stat("judged:big-tiny:" + fmt)
+        if paths > 2:
+            res.add_cex(f"{fmt}: {case['n_copies'] - 1} tiny translated copies (and their big sibling) are stored as {paths} outlines; the tiny copies are "
+                        "congruent to each other and must share one", {"case": case, "outlines": paths}, {"site": "c19-stored-once", "case": case["id"]})
+
+
 def suite(ctx, res, n):
     for i in range(n):
         fmt = FORMATS[i % len(FORMATS)]
@@ -231,6 +280,7 @@ def run(ctx, res):
                 "that hold on the unchanged tree; other classes are known findings with frozen witnesses); viewBox in {24,48,100,128}; tolerance in {0.1,0.25,1}; formats glyf_colr_1, glyf_colr_0, picosvg; every case non-trivial")
     suite_try_reuse(ctx, res, ctx.budget(400, 8000))
     suite(ctx, res, ctx.budget(60, 1500))
+    suite_big_tiny(ctx, res, ctx.budget(8, 120))
 
 
 def search(ctx, res, broken):
